@@ -144,6 +144,7 @@ def _case(draw, nmax):
         "ldtype": draw(st.sampled_from(LDTYPES)),
         "desc": draw(st.booleans()),
         "fdr": draw(st.integers(0, len(FDRS) + 2)),
+        "fdr_nudge": draw(st.integers(0, 3)),
         "perm": perm_seed,
         "mode": "full",
     }
@@ -167,7 +168,7 @@ def enumerate_cases(tier):
             for lab in itertools.product((False, True), repeat=n):
                 for desc in (True, False):
                     yield {"ranks": list(r), "labels": list(lab), "kind": "lin", "kind2": "ulp", "sdtype": "float64",
-                           "ldtype": "bool", "desc": desc, "fdr": (sum(r) + sum(lab)) % (len(FDRS) + 3), "perm": 0,
+                           "ldtype": "bool", "desc": desc, "fdr": (sum(r) + sum(lab)) % (len(FDRS) + 3), "fdr_nudge": (sum(r) + 2 * sum(lab)) % 4, "perm": 0,
                            "mode": "light"}
 
 
@@ -350,6 +351,11 @@ def check(case):
         # a threshold that coincides with an occurring FDR value
         vals = sorted(set(float(x) for x in ref))
         thr = vals[(fi - len(FDRS)) % len(vals)]
+        # ... or lies a few parts per million beside it (far outside float32 rounding, so the labels are unambiguous)
+        nudge = [0.0, -4e-6, 4e-6, -3e-5][case.get("fdr_nudge", 0) % 4]
+        if nudge and not (nudge > 0 and thr * (1 + nudge) > 1.0):
+            thr = thr * (1 + nudge)
+            classes.append("threshold-ppm-beside-an-occurring-q")
     exp_labels, amb = labels_ref(ref, labels, thr)
     tb = np.array(labels, dtype=bool)
     sf = scores.astype(np.float64)
